@@ -332,6 +332,18 @@ def _work_entry(task):
     return _guarded(go) or (cls, [])
 
 
+def _work_azimuth(task):
+    """CylinderSegment, integer-degree side face phij, observer azimuth exactly phij + k degrees"""
+    import random
+    phij, k, which, sub = task
+    def go():
+        case = S.azimuth_case(random.Random(sub), phij, k, which)
+        if case is None:
+            return None, {"status": "skipped", "why": "no admissible azimuth-grid case"}
+        return case, S.evaluate(case)
+    return _guarded(go, 120.0) or (None, {"status": "skipped", "why": "watchdog"})
+
+
 def _work_multi(sub):
     """6 interleaved sources (twin, duplicate, three classes) x 6 observers in one call"""
     import random
@@ -349,17 +361,23 @@ def search(ctx, n_per_class, procs=4):
     btasks = [(c, rng.getrandbits(48)) for c in S.CLASSES for _ in range(max(3, n_per_class // 40))]
     etasks = [(c, rng.getrandbits(48)) for c in S.CLASSES for _ in range(max(8, n_per_class // 10))]
     mtasks = [rng.getrandbits(48) for _ in range(max(12, n_per_class // 5))]
+    # every integer side-face angle in [-359, 360]; quick: one offset k per angle (drawn), thorough: all five
+    ks = (0, 180, -180, 360, -360)
+    atasks = [(phij, k, which, rng.getrandbits(48)) for phij in range(-359, 361)
+              for k in (ks if n_per_class >= 800 else (rng.choice(ks),)) for which in ((0, 1) if n_per_class >= 800 else (rng.randrange(2),))]
     if procs > 1:
         with Pool(procs) as p:
             out = p.map(_work, tasks, chunksize=16)
             bout = p.map(_work_batch, btasks, chunksize=2)
             eout = p.map(_work_entry, etasks, chunksize=4)
             mout = p.map(_work_multi, mtasks, chunksize=2)
+            aout = p.map(_work_azimuth, atasks, chunksize=16)
     else:
         out = [_work(t) for t in tasks]
         bout = [_work_batch(t) for t in btasks]
         eout = [_work_entry(t) for t in etasks]
         mout = [_work_multi(t) for t in mtasks]
+        aout = [_work_azimuth(t) for t in atasks]
     for cls, fails in eout:
         ctx.bump(f"search:entry-points:{cls}")
         ctx.count("evaluations", 5)
@@ -377,7 +395,8 @@ def search(ctx, n_per_class, procs=4):
         ctx.count("evaluations", judged)
         for sig, what, rp in fails:
             ctx.impl_fail(sig, what, rp)
-    out = [(c, r) for c, r in out if c is not None]
+    ctx.count("search_azimuth_grid_points", sum(1 for c, r in aout if c is not None and r["status"] in ("ok", "fail")))
+    out = [(c, r) for c, r in list(out) + list(aout) if c is not None]
     cases = [c for c, _ in out]
     res = [r for _, r in out]
     nskip = 0
